@@ -16,7 +16,7 @@ struct GenOpt {
   bool allow_raw_json = false;    // Raw values holding a JSON fragment
   bool allow_raw_msgpack = false; // Raw values holding one MessagePack object
   bool allow_binext = false;
-  bool int64 = true;              // false: stay within int32/uint32 (USE_LONG_LONG=0)
+  bool int64 = true;              // false: stay within int32 (USE_LONG_LONG=0 stores 32 bits only)
   int str_mode = 1;               // 0 printable ASCII, 1 valid UTF-8 + controls + NUL, 2 arbitrary bytes
   bool str_nul = true;
   bool key_nul = true;
@@ -51,7 +51,7 @@ inline MVal gen_int(Rng& r, const GenOpt& o) {
   if (!o.int64) {
     // restrict to what a 32-bit JsonInteger/JsonUInt configuration stores
     if (m.neg) { if (m.mag > 0x80000000ull) m.mag = 0x80000000ull - r.below(3); }
-    else if (m.mag > 0xFFFFFFFFull) m.mag = 0xFFFFFFFFull - r.below(3);
+    else if (m.mag > 0x7FFFFFFFull) m.mag = 0x7FFFFFFFull - r.below(3);   // (set through a signed C++ type half of the time)
   }
   if (m.mag == 0) m.neg = false;
   return m;
@@ -64,7 +64,12 @@ inline double gen_double(Rng& r, const GenOpt& o) {
     case 1: v = (double)r.range(-100000, 100000) / (double)(1 << r.below(12)); break;
     case 2: { int k = (int)r.range(-60, 70); v = ldexp(1.0, k) + (double)r.range(-2, 2) * ldexp(1.0, k - (int)r.below(30)); if (r.coin()) v = -v; break; }
     case 3: { // short decimal
-      char buf[48]; snprintf(buf, sizeof buf, "%d.%0*de%d", (int)r.range(-99, 99), (int)r.range(1, 6), (int)r.below(1000), (int)r.range(-30, 30));
+      // exponents: mostly moderate; one in three around the edges of the float and double ranges (the parser's float fast path ends there)
+      static const int edge[] = {36, 37, 38, 39, 40, 44, 45, 46, -36, -37, -38, -39, -44, -45, -46, 290, 299, -290, -299, 22, 23, -22, -23};
+      int ex = r.chance(1, 3) ? r.pick(edge) : (int)r.range(-30, 30);
+      char buf[48];
+      if (r.chance(1, 3)) snprintf(buf, sizeof buf, "%de%d", (int)r.range(-99, 99), ex);   // one or two significant digits
+      else snprintf(buf, sizeof buf, "%d.%0*de%d", (int)r.range(-99, 99), (int)r.range(1, 6), (int)r.below(1000), ex);
       v = strtod(buf, nullptr); break;
     }
     case 4: v = (double)(float)((double)r.range(-1000000, 1000000) * ldexp(1.0, (int)r.range(-40, 40))); break;
